@@ -2,5 +2,6 @@ SPECIFICATION Spec
 CONSTANTS
   Mods = {"ma", "mb", "mc"}
   Families = {"graph3s", "diamond2", "flat2", "sample"}
+  AssumeAll = FALSE
 INVARIANTS TypeOK RunOnce NoReentry OneObject Provenance StarRespectsUnderscore Terminates Usable Emit
 CHECK_DEADLOCK FALSE
